@@ -566,6 +566,7 @@ const ORDERS: &[&str] = &[
     "reset_to_large_sizes",
     "absorb_after_deep_lookup",
     "construction_ladder",
+    "binomial_meets_slightly_smaller",
 ];
 
 /// depth/size invariant through the hook against the big model, O(n alpha)
@@ -955,6 +956,104 @@ fn run_adversarial(order: &str, n: usize, seed: u64, rep: &mut Report) {
                 // checkpoint now: few components, every one of them tiny (depth bound 0..3)
                 if !big_checkpoint(&dsu, &m, &mut cx, "after joining small components from both ends") {
                     return;
+                }
+            }
+            "binomial_meets_slightly_smaller" => {
+                // the depth bound is tight exactly for perfect binomial trees (2^k elements at depth k, built through roots
+                // only): whichever way one of them is united with a component of 2^(k-1) < s <= 2^k elements, the smaller
+                // one has to go below. Components built in both orders (so that either may be "the largest so far" while
+                // the other is assembled from halves no larger than it), united in both argument orders. No lookups.
+                let root_of = |dsu: &DSU, mut x: usize| {
+                    let p = dsu.verif_parents();
+                    while p[x] != x {
+                        x = p[x];
+                    }
+                    x
+                };
+                let mut base = 0usize;
+                let mut combo = 0usize;
+                'outer: loop {
+                    let mut progressed = false;
+                    for k in 1..=20usize {
+                        let full = 1usize << k;
+                        let sizes = [full - 1, full - (full / 8).max(1), full / 2 + 1, full, full - (full / 16).max(1)];
+                        let sq = sizes[combo % sizes.len()].max(1);
+                        if base + full + sq > n {
+                            continue;
+                        }
+                        progressed = true;
+                        let (p_lo, q_lo) = if combo % 2 == 0 { (base, base + full) } else { (base + sq, base) };
+                        let build_p = combo / 2 % 2 == 0;
+                        // a component of `size` elements at [lo, lo + size): perfect binomial blocks for the set bits of
+                        // size (largest first), each built through roots, then joined through roots largest first
+                        let mut build = |dsu: &mut DSU, m: &mut BigModel, lo: usize, size: usize, cx: &mut Cx, ok: &mut bool, unions: &mut usize| {
+                            let mut at = lo;
+                            let mut prev_root: Option<usize> = None;
+                            for bit in (0..=20usize).rev() {
+                                if size >> bit & 1 == 0 {
+                                    continue;
+                                }
+                                let w = 1usize << bit;
+                                let mut width = 1;
+                                while width < w {
+                                    let mut b = at;
+                                    while b + width < at + w {
+                                        let (x, y) = (root_of(dsu, b), root_of(dsu, b + width));
+                                        let want = m.union(x, y);
+                                        let got = lib!(dsu.un(x, y));
+                                        cx.rep.inc("un_checked");
+                                        *unions += want as usize;
+                                        if got != want {
+                                            cx.violation("un_result", Json::obj().set("u", x).set("v", y).set("got", got).set("want", want));
+                                            *ok = false;
+                                            return;
+                                        }
+                                        b += 2 * width;
+                                    }
+                                    width *= 2;
+                                }
+                                let r = root_of(dsu, at);
+                                if let Some(pr) = prev_root {
+                                    let want = m.union(pr, r);
+                                    let got = lib!(dsu.un(pr, r));
+                                    *unions += want as usize;
+                                    if got != want {
+                                        *ok = false;
+                                        return;
+                                    }
+                                    prev_root = Some(root_of(dsu, pr));
+                                } else {
+                                    prev_root = Some(r);
+                                }
+                                at += w;
+                            }
+                        };
+                        if build_p {
+                            build(&mut dsu, &mut m, p_lo, full, &mut cx, &mut ok, &mut unions);
+                            build(&mut dsu, &mut m, q_lo, sq, &mut cx, &mut ok, &mut unions);
+                        } else {
+                            build(&mut dsu, &mut m, q_lo, sq, &mut cx, &mut ok, &mut unions);
+                            build(&mut dsu, &mut m, p_lo, full, &mut cx, &mut ok, &mut unions);
+                        }
+                        if !ok {
+                            return;
+                        }
+                        let (rp, rq) = (root_of(&dsu, p_lo), root_of(&dsu, q_lo));
+                        if combo / 4 % 2 == 0 {
+                            un!(rp, rq);
+                        } else {
+                            un!(rq, rp);
+                        }
+                        cx.rep.inc("binomial_meets_smaller_pairs");
+                        base += full + sq;
+                        combo += 1;
+                        if n <= 70_000 && combo % 8 == 0 && !big_checkpoint(&dsu, &m, &mut cx, "after a perfect binomial tree met a slightly smaller component") {
+                            return;
+                        }
+                    }
+                    if !progressed {
+                        break 'outer;
+                    }
                 }
             }
             "reset_to_large_sizes" => {
